@@ -80,12 +80,17 @@ pub fn ser_err_tree(e: SerializationError) -> Tree {
         SerializationError::EmptySlice => 3,
         SerializationError::InvalidAckRange => 4,
         SerializationError::InvalidPacketType => 5,
+        // a variant the model does not know: the observation differs from the model's, the run goes on
+        #[allow(unreachable_patterns)]
+        _ => 99,
     })
 }
 fn chan_err_tree(e: ChannelError) -> Tree {
     n(match e {
         ChannelError::ReliableChannelMaxMemoryReached => 0u8,
         ChannelError::InvalidSliceMessage => 1,
+        #[allow(unreachable_patterns)]
+        _ => 99,
     })
 }
 pub fn reason_tree(r: DisconnectReason) -> Tree {
@@ -98,6 +103,8 @@ pub fn reason_tree(r: DisconnectReason) -> Tree {
         DisconnectReason::ReceivedInvalidChannelId(ch) => l(vec![n(5u8), n(ch)]),
         DisconnectReason::SendChannelError { channel_id, error } => l(vec![n(6u8), n(channel_id), chan_err_tree(error)]),
         DisconnectReason::ReceiveChannelError { channel_id, error } => l(vec![n(7u8), n(channel_id), chan_err_tree(error)]),
+        #[allow(unreachable_patterns)]
+        _ => l(vec![n(99u8)]),
     }
 }
 pub fn status_tree(c: &RenetClient) -> Tree {
